@@ -8,6 +8,7 @@
 //   relax_cheb_pre|post deg hi lo scale A f x tmp    relax_cheb_apply deg hi lo scale A f
 //   relax_cheb_twice deg hi lo scale A f x g         relax_cheb_cd hi lo scale A
 //   relax_ilu0_pre|post w A f x tmp       relax_ilu0_apply A f        relax_ilu0_factors A
+//   relax_iluk_pre|post k w A f x tmp     relax_iluk_apply k A f      relax_iluk_factors k A     relax_ilup_factors k A
 //   relax_ilu_solve L U D b
 //   relax_lu_check kind k A L U D         (V-grade; L U D = what the implementation produced at generation time)
 //   relax_spai1_check A M                 (V-grade; M = the implementation's spai1::M)
@@ -121,6 +122,34 @@ static bool adm_pattern(const std::string &kind, long k, const Mat &A, Pat &P) {
     return true;
 }
 
+// Dense reference recurrences for the level-of-fill factorisation, written from the algorithm descriptions:
+//   asis = true : amgcl's single pass: a contribution to a position that has no slot yet is DISCARDED when its level
+//                 exceeds k (iluk.hpp sparse_vector::add), an existing slot accumulates everything;
+//   asis = false: Saad's ILU(p) (Alg. 10.5): every contribution is accumulated together with its level, only slots
+//                 of level <= k are used as multipliers, slots of level > k are dropped when the row is finished.
+// Level rule in both: lev = max(lev_ik, lev_kj) + 1 (amgcl's).  Works on the stored pattern of A (explicit zeros count).
+static bool dense_iluk(const Mat &A, long kfill, bool asis, Factors &F) {
+    long n = A.n; const long NONE = -1;
+    Dense Lv(n, QV(n)), Uv(n, QV(n)); std::vector<std::vector<long>> Ul(n, std::vector<long>(n, NONE)); QV Dinv(n);
+    for (long i = 0; i < n; ++i) {
+        QV w(n); std::vector<long> wl(n, NONE);
+        auto add = [&](long c, const Q &v, long lev) { if (wl[c] == NONE) { if (!asis || lev <= kfill) { w[c] = v; wl[c] = lev; } } else { w[c] += v; wl[c] = std::min(wl[c], lev); } };
+        for (auto j = A.ptr[i]; j < A.ptr[i+1]; ++j) add(A.col[j], A.val[j], 0);
+        for (long c = 0; c < i; ++c) { if (wl[c] == NONE || wl[c] > kfill) continue; w[c] = w[c] * Dinv[c]; for (long j = c + 1; j < n; ++j) if (Ul[c][j] != NONE) add(j, -w[c] * Uv[c][j], std::max(wl[c], Ul[c][j]) + 1); }
+        if (wl[i] == NONE) return false;
+        for (long c = 0; c < n; ++c) { if (wl[c] == NONE || wl[c] > kfill) continue; if (c < i) Lv[i][c] = w[c]; else if (c == i) Dinv[i] = Q(1) / w[c]; else { Uv[i][c] = w[c]; Ul[i][c] = wl[c]; } }
+    }
+    std::vector<std::vector<std::pair<long,Q>>> lr(n), ur(n);
+    for (long i = 0; i < n; ++i) for (long j = 0; j < n; ++j) { if (j < i && Lv[i][j] != 0) lr[i].push_back({j, Lv[i][j]}); if (j > i && Uv[i][j] != 0) ur[i].push_back({j, Uv[i][j]}); }
+    F.L = from_rows(n, n, lr); F.U = from_rows(n, n, ur); F.D = Dinv; return true;
+}
+// A with explicit zeros on the pattern P (what ilup hands to ilu0)
+static Mat pad_to(const Mat &A, const std::vector<std::vector<char>> &P) {
+    Dense D = dense(A); std::vector<std::vector<std::pair<long,Q>>> rows(A.n);
+    for (long i = 0; i < A.n; ++i) for (long j = 0; j < A.n; ++j) if (P[i][j]) rows[i].push_back({j, D[i][j]});
+    return from_rows(A.n, A.n, rows);
+}
+
 // ------------------------------------------------------------------ running the real classes
 template <class R> static void run_sweep(R &relax, const Crs &A, const QV &f, QV &x, QV &t, bool pre) {
     NVec F = nvec(f), X = nvec(x), T = nvec(t);
@@ -188,12 +217,22 @@ static bool real_factors(const std::string &kind, long k, const Mat &Am, Factors
         amgcl::relaxation::ilut<Backend>::params p; p.tau = Q(0); amgcl::relaxation::ilut<Backend> R(*A, p, bprm); return read_factors(R, *A, F); }
     throw bad_input("kind");
 }
+// dense as-is reference for the modelled kinds ("-" when there is none: ilut)
+static bool asis_reference(const std::string &kind, long k, const Mat &Am, Factors &F) {
+    if (kind == "ilu0") return dense_iluk(Am, 0, true, F);
+    if (kind == "iluk") return dense_iluk(Am, k, true, F);
+    if (kind == "ilup") { Pat P; adm_pattern("ilup", k, Am, P); return dense_iluk(k == 0 ? Am : pad_to(Am, P), 0, true, F); }
+    return false;
+}
+static bool factors_eq(const Factors &a, const Factors &b);
 static Mat spai1_M(const Mat &Am) {
     auto A = Am.crs(); BPrm bprm; amgcl::relaxation::spai1<Backend>::params p; amgcl::relaxation::spai1<Backend> R(*A, p, bprm);
     Mat M; M.n = Am.n; M.m = Am.m; const Crs &C = *R.M;
     M.ptr.assign(C.ptr, C.ptr + C.nrows + 1); M.col.assign(C.col, C.col + C.nnz); M.val.assign(C.val, C.val + C.nnz); return M;
 }
 static bool mat_eq(const Mat &a, const Mat &b) { if (a.n != b.n || a.m != b.m || a.ptr != b.ptr || a.col != b.col || a.val.size() != b.val.size()) return false; for (size_t i = 0; i < a.val.size(); ++i) if (!qeq(a.val[i], b.val[i])) return false; return true; }
+
+static bool factors_eq(const Factors &a, const Factors &b) { return mat_eq(a.L, b.L) && mat_eq(a.U, b.U) && veq(a.D, b.D); }
 
 // ------------------------------------------------------------------ one op
 static Result execute(const Toks &t) {
@@ -295,6 +334,24 @@ static Result execute(const Toks &t) {
         else if (op == "relax_ilu0_apply") { QV y = run_apply(*relax, *A, f); if (okF && !veq(dmv(B, y), f)) r.fail("ilu0 apply: (L U) y != f"); r.out = (Line() << y).get(); r.tag("ilu0_apply"); }
         else { QV x1, t1; sweep_case(r, *relax, Am, *A, f, x, tmp, op == "relax_ilu0_pre", x1, t1); QV res = vsub(f, dmv(D, x)); if (okF && !veq(dmv(B, t1), res)) r.fail("ilu0 sweep: (L U) tmp != f - A x"); if (!veq(vsub(x1, x), vscale(w, t1))) r.fail("ilu0 sweep: x' - x != damping * tmp"); r.tag("ilu0"); }
         struct_tags(Am); r.nontrivial = n > 1 && Am.col.size() > (size_t)n;
+    } else if (op == "relax_iluk_pre" || op == "relax_iluk_post" || op == "relax_iluk_apply" || op == "relax_iluk_factors" || op == "relax_ilup_factors") {
+        bool isp = op == "relax_ilup_factors"; long k = c.nat(); Q w(1); Mat Am; QV f, x, tmp; if (k < 0) throw bad_input("k");
+        if (op == "relax_iluk_factors" || isp) { Am = c.mat(); c.expect_end(); if (!square_wf(Am)) throw bad_input("shape"); }
+        else if (op == "relax_iluk_apply") apply_args(Am, f); else { w = c.rat(); sweep_args(Am, f, x, tmp); }
+        if (!sorted(Am) || !has_diag(Am)) throw bad_input("structure");
+        auto A = Am.crs(); Dense D = dense(Am); long n = Am.n; std::string kind = isp ? "ilup" : "iluk";
+        typedef amgcl::relaxation::iluk<Backend> RK; typedef amgcl::relaxation::ilup<Backend> RP;
+        std::unique_ptr<RK> rk; std::unique_ptr<RP> rp;
+        try { if (isp) { RP::params prm; prm.k = (int)k; rp.reset(new RP(*A, prm, bprm)); } else { RK::params prm; prm.k = (int)k; prm.damping = w; rk.reset(new RK(*A, prm, bprm)); } }
+        catch (const bad_input&) { throw; } catch (const std::runtime_error&) { r.out = "precondition"; r.tag(kind + "_precondition"); r.nontrivial = n > 1; return r; }
+        Factors F; bool okF = isp ? read_factors(*rp, *A, F) : read_factors(*rk, *A, F);
+        if (!okF) { r.tag(kind + "_singular"); if (op == "relax_iluk_factors" || isp) { r.out = "singular"; r.nontrivial = n > 1; return r; } }
+        Factors Ref; if (okF && !(asis_reference(kind, k, Am, Ref) && factors_eq(Ref, F))) r.fail(kind + ": factors differ from the dense reference recurrence of the algorithm as written");
+        Dense B = okF ? lu_product(F) : D;
+        if (op == "relax_iluk_factors" || isp) { Line lo; lo << F.L << F.U << F.D; r.out = lo.get(); r.tag(kind + "_factors"); }
+        else if (op == "relax_iluk_apply") { QV y = run_apply(*rk, *A, f); if (okF && !veq(dmv(B, y), f)) r.fail("iluk apply: (L U) y != f"); r.out = (Line() << y).get(); r.tag("iluk_apply"); }
+        else { QV x1, t1; sweep_case(r, *rk, Am, *A, f, x, tmp, op == "relax_iluk_pre", x1, t1); QV res = vsub(f, dmv(D, x)); if (okF && !veq(dmv(B, t1), res)) r.fail("iluk sweep: (L U) tmp != f - A x"); if (!veq(vsub(x1, x), vscale(w, t1))) r.fail("iluk sweep: x' - x != damping * tmp"); r.tag("iluk"); }
+        r.tag(kind + std::to_string(k)); struct_tags(Am); r.nontrivial = n > 1 && Am.col.size() > (size_t)n;
     } else if (op == "relax_ilu_solve") {
         Mat L = c.mat(), U = c.mat(); QV Dv = c.vec(), b = c.vec(); c.expect_end();
         if (!square_wf(L) || !square_wf(U) || L.n != U.n || (long)Dv.size() != L.n || (long)b.size() != L.n) throw bad_input("shape");
@@ -313,12 +370,30 @@ static Result execute(const Toks &t) {
         if (!sorted(Am) || !has_diag(Am)) throw bad_input("structure");
         Factors F; bool okF = real_factors(kind, k, Am, F);
         if (!okF) r.fail(kind + ": apply() is not the inverse of a unit-lower times upper product");
-        else if (!mat_eq(F.L, G.L) || !mat_eq(F.U, G.U) || !veq(F.D, G.D)) r.fail(kind + ": the factors in the op line are not what the implementation produces now");
-        bool onpat, inpat, exact; lu_flags<int>(kind, k, Am, okF ? F : G, onpat, inpat, exact);
-        if (!onpat) r.fail(kind + ": (L U)_ij != a_ij on the admitted pattern"); if (!inpat) r.fail(kind + ": factor entry outside the admitted pattern");
+        else if (!factors_eq(F, G)) r.fail(kind + ": the factors in the op line are not what the implementation produces now");
+        const Factors &H = okF ? F : G;
+        bool onpat, inpat, exact; lu_flags<int>(kind, k, Am, H, onpat, inpat, exact);
+        // does the independent dense recurrence of the algorithm AS WRITTEN reproduce the implementation's factors?
+        Factors Ref; bool has_ref = kind != "ilut", asis = has_ref && asis_reference(kind, k, Am, Ref) && factors_eq(Ref, H);
+        if (has_ref && !asis) r.fail(kind + ": factors differ from the dense reference recurrence of the algorithm as written");
         bool must_exact = pattern_tridiag(Am) || pattern_arrow(Am) || (kind == "iluk" && k >= Am.n);
         if (must_exact && !exact) r.fail(kind + ": not the exact factorisation although the exact factors fit the pattern");
-        r.out = (Line() << onpat << inpat << exact).get(); r.tag("lu_" + kind); if (kind == "iluk" || kind == "ilup") r.tag(kind + std::to_string(k)); if (exact) r.tag("lu_exact");
+        if (!onpat) {
+            // Known defect C06-iluk-dropped-contributions is recognised ONLY when (a) the as-is recurrence reproduces the
+            // implementation exactly, (b) k < n, and (c) the recurrence that keeps the discarded level>k terms satisfies the
+            // identity on the same admitted pattern.  Anything else is an ordinary failure.
+            bool excused = false; std::string where;
+            if (kind == "iluk" && k < Am.n && asis && !must_exact) {
+                Factors Cor; bool co, ci, ce; if (dense_iluk(Am, k, false, Cor)) { lu_flags<int>(kind, k, Am, Cor, co, ci, ce); excused = co && ci; }
+                Pat P; adm_pattern(kind, k, Am, P); Dense B = lu_product(H), D = dense(Am);
+                for (long i = 0; i < Am.n && where.empty(); ++i) for (long j = 0; j < Am.n; ++j) if (P[i][j] && B[i][j].v != D[i][j].v) { where = "(LU)[" + std::to_string(i) + "," + std::to_string(j) + "] = " + B[i][j].str() + " != a_ij = " + D[i][j].str(); break; }
+            }
+            if (excused) { r.fail("iluk-dropped-contribution: " + where + " on an admitted position; as-is recurrence == implementation, recurrence with the discarded level>k terms restores the identity"); r.tag("iluk_dropped"); }
+            else r.fail(kind + ": (L U)_ij != a_ij on the admitted pattern");
+        }
+        if (!inpat) r.fail(kind + ": factor entry outside the admitted pattern");
+        { Line lo; lo << onpat << inpat << exact << (has_ref ? (asis ? "1" : "0") : "-"); r.out = lo.get(); }
+        r.tag("lu_" + kind); if (kind == "iluk" || kind == "ilup") r.tag(kind + std::to_string(k)); if (exact) r.tag("lu_exact");
         struct_tags(Am); r.nontrivial = Am.n > 1 && Am.col.size() > (size_t)Am.n;
     } else if (op == "relax_spai1_check") {
         Mat Am = c.mat(), G = c.mat(); c.expect_end(); if (!square_wf(Am) || !square_wf(G) || G.n != Am.n) throw bad_input("shape");
@@ -380,12 +455,12 @@ static void generate(Rng &rng, const Opts &o, std::vector<std::string> &lines) {
 #ifdef _OPENMP
     omp_set_num_threads(1);
 #endif
-    long N = o.cases > 0 ? o.cases : (o.thorough() ? 6000 : 420);
+    long N = o.cases > 0 ? o.cases : (o.thorough() ? 20000 : 480);
     const long nmax = o.thorough() ? 14 : 9;
     const std::vector<Q> omegas = { Q::frac(18, 25), Q(1), Q::frac(2, 3), Q::frac(1, 2), Q(0), Q::frac(-1, 3) };
     const std::vector<float> his = { 1.0f, 1.1f, 1.5f }, los = { 1.0f / 30, 0.25f, 0.5f, 1.0f };
     for (long k = 0; k < N; ++k) {
-        int which = (int)rng.range(0, 19);
+        int which = (int)rng.range(0, 22);
         long n = rng.coin(1, 12) ? 1 : rng.range(2, nmax);
         int fam = (int)rng.range(0, 7);
         Mat A = gen_matrix(rng, n, fam); n = A.n;
@@ -436,6 +511,15 @@ static void generate(Rng &rng, const Opts &o, std::vector<std::string> &lines) {
             Factors F; bool ok = false; try { ok = real_factors(kind, kk, A, F); } catch (const std::exception&) { ok = false; }
             if (!ok) { F.L = from_rows(n, n, std::vector<std::vector<std::pair<long,Q>>>(n)); F.U = F.L; F.D.assign(n, Q(1)); }    // reported by the oracle when executed
             l << "relax_lu_check" << kind << kk << A << F.L << F.U << F.D;
+        }
+        else if (which >= 20) {       // ILU(k) / ILUP as written (modelled in Lean: Model/RelaxIluk.lean, ilup = ilu0 on the padded pattern)
+            int fam2 = (int)rng.range(0, 5); A = gen_matrix(rng, n, fam2); n = A.n; x = gen_vec(rng, n); f = rng.coin(1, 4) ? mat_vec(A, x) : gen_vec(rng, n); tmp = gen_vec(rng, n);
+            long kk = rng.coin(1, 8) ? n : rng.range(0, 3);
+            if (which == 22) l << "relax_ilup_factors" << rng.range(0, 2) << A;
+            else { int w2 = (int)rng.range(0, 3);
+                if (w2 <= 1) l << (w2 == 0 ? "relax_iluk_pre" : "relax_iluk_post") << kk << rng.pick(omegas) << A << f << x << tmp;
+                else if (w2 == 2) l << "relax_iluk_apply" << kk << A << f;
+                else l << "relax_iluk_factors" << kk << A; }
         }
         else {                        // V-grade: SPAI-1
             if (n > 6) { n = rng.range(2, 6); A = gen_matrix(rng, n, (int)rng.range(0, 5)); n = A.n; }
